@@ -25,4 +25,22 @@ theorem no_identity_dependence : Generated.identityDependent = [] := by decide
     process-wide facts (the only import from `random` is the documented `choices` fallback) -/
 theorem no_ambient_dependence : Generated.ambientDependent = [] := by decide
 
+/-! ### the vendored sly
+
+  sly is not the package's own code, and it does use these constructs — in places that were read once and found harmless:
+  four sanity `assert`s (three at class-build time, one in `Lexer.begin` on a class the package passes itself), `id()` as a
+  key for LR item sets and reported conflicts while the TABLES ARE BUILT (the objects are kept alive by the tables; nothing is
+  keyed by `id()` while lexing or parsing), `import sys` / `inspect` for error reporting and class construction.  The
+  obligation pins exactly that set (by stripped source line, so edits elsewhere in sly do not matter): one more `assert`,
+  `id()` or ambient import in sly breaks it. -/
+
+def slyDebugBaseline : List String := ["docparse.py: assert hasattr(cls, \"parser\") and hasattr(cls, \"lexer\")", "docparse.py: assert isinstance(parsedict, dict), \"Parser must return a dictionary\"", "lex.py: assert isinstance(cls, LexerMeta), \"state must be a subclass of Lexer\"", "yacc.py: assert self.Productions == ["]
+def slyIdentityBaseline : List String := ["yacc.py: already_reported.add((state, id(rule), id(rejected)))", "yacc.py: g = self.lr_goto_cache.get((id(I), x))", "yacc.py: if (state, id(rule), id(rejected)) in already_reported:", "yacc.py: if not g or id(g) in self.lr0_cidhash:", "yacc.py: j = self.lr0_cidhash.get(id(g), -1)", "yacc.py: j = self.lr0_cidhash.get(id(g), -1) # Go to next state", "yacc.py: return self._index_positions[id(value)]", "yacc.py: return self._line_positions[id(value)]", "yacc.py: s1 = s.get(id(n))", "yacc.py: s[id(n)] = s1", "yacc.py: self._index_positions[id(value)] = (sym.index, sym.end)", "yacc.py: self._line_positions[id(value)] = sym.lineno", "yacc.py: self.lr0_cidhash[id(I)] = i", "yacc.py: self.lr0_cidhash[id(g)] = len(C)", "yacc.py: self.lr_goto_cache[(id(I), x)] = g"]
+def slyAmbientBaseline : List String := ["ast.py: import sys", "yacc.py: import inspect", "yacc.py: import sys"]
+
+/-- **table obligation**: the vendored sly uses `assert`, `id()` and ambient modules exactly where it did when it was reviewed -/
+theorem sly_uses_are_the_reviewed_ones :
+    Generated.slyDebugDependent = slyDebugBaseline ∧ Generated.slyIdentityDependent = slyIdentityBaseline ∧
+    Generated.slyAmbientDependent = slyAmbientBaseline := by decide
+
 end Pyab.Properties
